@@ -224,6 +224,10 @@ class EscapePolicy(InlineOnly):
                 return []
             if kind == "tuple":
                 return []
+            if is_const(idx) and isinstance(idx[1], int) and base[0] == "call" and base[1][0] == "attr" and base[1][2] in ("pop", "get"):
+                # a small constant index into a value that was looked up in a mapping (the stored pair), guarded or not by a
+                # None test: element access of a stored tuple, not a dictionary lookup
+                return []
             if _membership_known(s, base, idx):
                 return []  # `idx in base` was established on this path and nothing was removed from base since
             return ["KeyError"]
